@@ -25,8 +25,85 @@ type PS struct {
 	// SlowReads makes readers returned by GetPart yield between reads.
 	SlowReads bool
 
+	// LockModel mirrors a per-part reader/writer lock the wrapped store holds
+	// for the lifetime of a reader (erasure coding): a conflicting call waits in
+	// the scheduler instead of blocking on the real sync.RWMutex, which
+	// synctest does not treat as durable blocking.
+	LockModel bool
+	readers   map[string]int
+	writers   map[string]bool
+	LockWaits int
+
 	mu    sync.Mutex
 	Calls map[string]int
+}
+
+func (p *PS) lockReason(id partstore.PartId) string { return "partlock:" + p.Name + ":" + id.String() }
+
+func (p *PS) acquire(id partstore.PartId, write bool) {
+	if !p.LockModel {
+		return
+	}
+	s := sim.Active()
+	if s == nil {
+		return
+	}
+	k := id.String()
+	for {
+		p.mu.Lock()
+		if p.readers == nil {
+			p.readers, p.writers = map[string]int{}, map[string]bool{}
+		}
+		free := !p.writers[k] && (!write || p.readers[k] == 0)
+		if free || s.Closed() || s.IsRoot() {
+			if write {
+				p.writers[k] = true
+			} else {
+				p.readers[k]++
+			}
+			p.mu.Unlock()
+			return
+		}
+		p.LockWaits++
+		p.mu.Unlock()
+		s.ParkBlocked(p.lockReason(id))
+	}
+}
+
+func (p *PS) release(id partstore.PartId, write bool) {
+	if !p.LockModel {
+		return
+	}
+	k := id.String()
+	p.mu.Lock()
+	if write {
+		delete(p.writers, k)
+	} else if p.readers[k] > 0 {
+		p.readers[k]--
+	}
+	p.mu.Unlock()
+	if s := sim.Active(); s != nil {
+		s.Unblock(p.lockReason(id))
+	}
+}
+
+type lockedReadCloser struct {
+	io.ReadCloser
+	once sync.Once
+	rel  func()
+}
+
+func (l *lockedReadCloser) Close() error {
+	err := l.ReadCloser.Close()
+	l.once.Do(l.rel)
+	return err
+}
+
+func (l *lockedReadCloser) Seek(off int64, whence int) (int64, error) {
+	if sk, ok := l.ReadCloser.(io.Seeker); ok {
+		return sk.Seek(off, whence)
+	}
+	return 0, io.ErrUnexpectedEOF
 }
 
 var _ partstore.PartStore = (*PS)(nil)
@@ -62,7 +139,9 @@ func (p *PS) PutPart(ctx context.Context, tx database.Tx, partId partstore.PartI
 	if err := p.Faults.Check("ps.put.before:" + p.Name); err != nil {
 		return err
 	}
+	p.acquire(partId, true)
 	err := p.Inner.PutPart(ctx, tx, partId, reader)
+	p.release(partId, true)
 	if err != nil {
 		return err
 	}
@@ -79,9 +158,14 @@ func (p *PS) GetPart(ctx context.Context, tx database.Tx, partId partstore.PartI
 	if err := p.Faults.Check("ps.get:" + p.Name); err != nil {
 		return nil, err
 	}
+	p.acquire(partId, false)
 	rc, err := p.Inner.GetPart(ctx, tx, partId)
 	if err != nil {
+		p.release(partId, false)
 		return nil, err
+	}
+	if p.LockModel {
+		rc = &lockedReadCloser{ReadCloser: rc, rel: func() { p.release(partId, false) }}
 	}
 	if p.Mutate != nil {
 		b, rerr := io.ReadAll(rc)
@@ -121,7 +205,10 @@ func (p *PS) DeletePart(ctx context.Context, tx database.Tx, partId partstore.Pa
 	if err := p.Faults.Check("ps.del.before:" + p.Name); err != nil {
 		return err
 	}
-	if err := p.Inner.DeletePart(ctx, tx, partId); err != nil {
+	p.acquire(partId, true)
+	err := p.Inner.DeletePart(ctx, tx, partId)
+	p.release(partId, true)
+	if err != nil {
 		return err
 	}
 	if err := p.Faults.Check("ps.del.after:" + p.Name); err != nil {
